@@ -395,8 +395,33 @@ def gen_scripts(rng, world, ctx):
         sc = []
         for _ in range(rng.randint(1, 4)):
             sc.extend(rng.choice(kinds)())
-        scripts.append(sc[:16])
+        scripts.append(_market_updates(rng, world, sc)[:16])
     return scripts
+
+
+def _market_updates(rng, world, sc):
+    """New quotes arrive: the user writes them into the price container already used (same object, new content)
+    and calls again.  The content of a container at the time of a call is part of that call's input."""
+    out = []
+    for st in sc:
+        pid = st.get("prices")
+        pid = pid[0] if isinstance(pid, list) and pid else pid
+        r = rng.random()
+        p_after = 0.5 if st["op"] == "io.optimize" else 0.08
+        if not isinstance(pid, str) or world["prices"][pid]["form"] not in ("dict_nd", "df_num", "df_dti"):
+            out.append(st)
+            continue
+        keys = sorted(world["prices"][pid]["cols"])
+        upd = {"op": "p.update", "prices": pid, "key": rng.choice(keys), "mul": rng.choice([0., 0.5, 1.5, -1.]),
+               "add": rng.choice([0., 0., 3.]), "style": rng.choice(["assign", "inplace"])}
+        p_before = 0.3 if (st.get("costs_only") or st["op"] == "P.samples") else 0.08
+        if r < p_before:
+            out += [upd, st]
+        elif r < p_before + p_after:
+            out += [st, upd, json.loads(json.dumps(st))]
+        else:
+            out.append(st)
+    return out
 
 
 def interleave(rng, scripts):
@@ -560,6 +585,7 @@ class Exec:
         self.plan = plan
         self.w = plan["world"]
         self.B = specs.Builder(self.w)
+        self.price_updates = {}   # price table id -> updates the user wrote into the container so far
         self.M = Model(self.w)
         self.last = {}      # object id -> dict(op, res, grid, prices_obj)
         self.fixes = {}     # fix id -> dict(sys=<dict obj>, I=<tagged>, x=<array>)
@@ -728,6 +754,7 @@ class Exec:
             self.stats["judged"] += 1
             self.stats["twin_calls"] += 1
             tw = specs.Builder(self.w)
+            tw.price_updates = self.price_updates    # the fresh twin's price containers hold what the user's hold now
             t = _call(lambda: twin_fn(tw))
             v = None
             if s.exc is not None and t.exc is not None:
@@ -769,7 +796,18 @@ class Exec:
         if "obj" in st and st["obj"][0] == "P" and st["obj"] not in w["portfolios"]:
             self.stats["noop_steps"] += 1
             return
-        if op == "a.set_tg":
+        if op == "p.update":
+            pid = st["prices"]
+            ps = w["prices"].get(pid)
+            if ps is None or ps["form"] not in ("dict_nd", "df_num", "df_dti") or st["key"] not in ps["cols"]:
+                self.stats["noop_steps"] += 1
+                return
+            u = [st["key"], st["mul"], st["add"], st.get("style", "assign")]
+            specs.apply_price_update(self.B.prices(pid), *u)
+            self.price_updates.setdefault(pid, []).append(u)
+            self.probe("price_container_updated")
+            self.events.append({"step": i, "op": op, "out": "ok"})
+        elif op == "a.set_tg":
             self.stats["calls"] += 1
             s = _call(lambda: self.B.asset(st["obj"]).set_timegrid(self.B.grid(st["grid"])))
             M.touch(st["obj"], st["grid"], s.exc is None, only_self=True)
